@@ -327,6 +327,24 @@ func getFontLocked(spec string) *sfnt.Font {
 		}
 		o.FDSelect = func(gid glyph.ID) int { return int(gid) % n }
 		f.Outlines = &o
+	case strings.HasPrefix(spec, "bigcff:"):
+		// bigcff:<n>:<base>: the CFF font base with n more glyphs of about 1 KiB of charstring each
+		parts := strings.SplitN(spec, ":", 3)
+		var n int
+		fmt.Sscan(parts[1], &n)
+		base := getFontLocked(parts[2])
+		f = base.Clone()
+		o := *base.Outlines.(*cff.Outlines)
+		o.Glyphs = append([]*cff.Glyph{}, o.Glyphs...)
+		for i := 0; i < n; i++ {
+			g := cff.NewGlyph(fmt.Sprintf("big%d", i), float64(500+i%7))
+			g.MoveTo(0, 0)
+			for j := 0; j < 300; j++ {
+				g.LineTo(float64((j*37+i*11)%900), float64((j*53+i*5)%700))
+			}
+			o.Glyphs = append(o.Glyphs, g)
+		}
+		f.Outlines = &o
 	case strings.HasPrefix(spec, "big:"):
 		// big:<n>:<base>: the glyf font base with an fpgm table of n zero bytes (a table > 1 MiB)
 		parts := strings.SplitN(spec, ":", 3)
@@ -1140,6 +1158,12 @@ func bigKs(lens []int, total int) []int {
 		}
 		s += l
 	}
+	for j := 1; j < 16; j++ {
+		add(total * j / 16) // spread over the whole output
+	}
+	add(1<<16 - 1)
+	add(1 << 16)
+	add(1<<16 + 1)
 	add(total - 1)
 	add(total)
 	add(total + 1)
@@ -1201,6 +1225,33 @@ func bigCases(c *Ctx, variant int) {
 		return err
 	})
 	if variant == 0 || c.Tier == "thorough" {
+		// tables just over 64 KiB through header.Write
+		t64 := map[string][]byte{"big1": make([]byte, 1<<16+1), "big2": make([]byte, 70001+variant), "head": make([]byte, 54)}
+		bigCountCases(c, fmt.Sprintf("scaler=%d tabs=%s:%d,%s:%d,%s:54", sc, hx([]byte("big1")), 1<<16+1, hx([]byte("big2")), 70001+variant,
+			hx([]byte("head"))), func(w io.Writer) error {
+			_, err := header.Write(w, sc, t64)
+			return err
+		})
+		// a CFF font whose encoded size exceeds 64 KiB: (*cff.Font).Write directly, and the sfnt writers
+		cspec := fmt.Sprintf("bigcff:%d:simple", r.Range(75, 90)+20*variant)
+		cfont := getFont(cspec)
+		bigCountCases(c, fmt.Sprintf("font=%s api=CFF", cspec), func(w io.Writer) error { return cfont.AsCFF().Write(w) })
+		for _, api := range []string{"Write", "CFFPDF"} {
+			api := api
+			bigCountCases(c, fmt.Sprintf("font=%s api=%s", cspec, api), func(w io.Writer) error {
+				_, err, _ := writeAPI(cfont, api, w)
+				return err
+			})
+		}
+		crec := &faultWriter{kind: "late", k: 1 << 60}
+		if err := cfont.AsCFF().Write(crec); err != nil {
+			panic(err)
+		}
+		c.Stat("big_cff_bytes", bucket(crec.acc))
+		cks := bigKs(crec.lens, crec.acc)
+		for _, kind := range honestKinds {
+			c.Case(Verdict, "faults.cffwrite", fmt.Sprintf("font=%s lens=%s w=%s ks=%s", cspec, ints(crec.lens), kind, ints(cks)), true)
+		}
 		spec := fmt.Sprintf("big:%d:sub:%d:%d:go:goregular", Pick(r, []int{1<<20 + 5, 2 << 20, 3<<20 - 1}), r.Range(2, 5), r.Intn(1000000))
 		font := getFont(spec)
 		for _, api := range []string{"Write", "TTPDF"} {
